@@ -202,10 +202,10 @@ def run(ctx, proofs_ok):
     h = vlib.build_harness(ctx)
     vlib.correspond_stream(ctx, h, linked_list_edges(), "ll-edges",
                            "bare linked list: every index -len-2..len+2, counts 0, +-1, +-len, int64 extremes on lists of 0..4 nodes (pointer structure compared after every operation)")
-    for i in range(6 if quick else 40):
+    for i in range(8 if quick else 40):
         if ctx.violations:
             return
-        vlib.correspond_stream(ctx, h, linked_list_stream(ctx.rng, 1200 if quick else 6000), f"ll-{i}",
+        vlib.correspond_stream(ctx, h, linked_list_stream(ctx.rng, 2500 if quick else 8000), f"ll-{i}",
                                "bare linked list: random method sequences, lists of 0..40 nodes with duplicates (pointer structure compared after every operation)")
     if ctx.violations:
         return
